@@ -188,10 +188,26 @@ pub fn run_one(ctx: &mut Ctx, ops: &[Op], get_cap: u64, key_seed: u64) -> bool {
     match res {
         Ok(()) => true,
         Err((i, f)) => {
+            // locally minimal history with the same violation signature (for the replay file)
+            let heavy = ops.iter().any(|o| matches!(o, Op::Batch(b) if b.len() > 500));
+            let minimal = if heavy || ctx.violations.iter().filter(|v| v.sig == f.sig).count() >= 1 {
+                ops[..=i.min(ops.len() - 1)].to_vec()
+            } else {
+                let sig = f.sig.clone();
+                gen::minimize(
+                    &ops[..=i.min(ops.len() - 1)],
+                    |cand| {
+                        let mut c = vec![];
+                        let mut nt = false;
+                        matches!(run_with_coverage(cand, get_cap, key_seed, &mut c, &mut nt), Err((_, f2)) if f2.sig == sig)
+                    },
+                    400,
+                )
+            };
             ctx.violate(
                 f.sig.clone(),
-                format!("at op #{i}: {}", f.detail),
-                json!({"kind":"history","key_seed":key_seed,"ops":ops::ops_to_json(ops),"failed_at":i}),
+                format!("at op #{i}: {} | minimal history with the same signature: {}", f.detail, ops::ops_to_json(&minimal)),
+                json!({"kind":"history","key_seed":key_seed,"ops":ops::ops_to_json(ops),"failed_at":i,"minimal_ops":ops::ops_to_json(&minimal)}),
             );
             false
         }
